@@ -101,6 +101,14 @@ func Load(patterns ...string) (*Loaded, error) {
 	for _, p := range prog.AllPackages() {
 		ld.byPath[p.Pkg.Path()] = p
 	}
+	// cut points: calls of the key are redirected to a harness function
+	for key, target := range redirectTable {
+		if p := ld.byPath[target[0]]; p != nil {
+			if f := p.Func(target[1]); f != nil {
+				ld.redirects[key] = f
+			}
+		}
+	}
 	ld.LoadS = time.Since(t0).Seconds()
 	return ld, nil
 }
@@ -113,4 +121,39 @@ func (ld *Loaded) ssaPkg(path string) *ssa.Package {
 		return p
 	}
 	return nil
+}
+
+// redirectTable: environment cut points (DESIGN 3). key = SSA function name,
+// value = (package path, harness function) with the receiver as first parameter.
+var redirectTable = map[string][2]string{
+	"(*" + repoMod + "/jrpc2.Client).do": {repoMod + "/jrpc2", "zzDo"},
+}
+
+// nativeCuts: how the same cut points are applied for native replay. The
+// repo file is rewritten mechanically at replay time (from the current
+// working tree): the original method is renamed and a forwarding wrapper to
+// the harness function is added.
+type nativeCut struct {
+	Pkg     string // package dir relative to the repo
+	File    string // file relative to the repo
+	Old     string // exact text to find
+	New     string // replacement
+	Wrapper string // Go source appended as an extra file of that package
+}
+
+var nativeCuts = []nativeCut{
+	{
+		Pkg:  "jrpc2",
+		File: "jrpc2/client.go",
+		Old:  "func (c *Client) do(ctx context.Context, url string, dest, req any) error {",
+		New:  "func (c *Client) zzOrigDo(ctx context.Context, url string, dest, req any) error {",
+		Wrapper: `package jrpc2
+
+import "context"
+
+func (c *Client) do(ctx context.Context, url string, dest, req any) error {
+	return zzDo(c, ctx, url, dest, req)
+}
+`,
+	},
 }
